@@ -51,8 +51,22 @@ def one_call(call: list, state: dict) -> dict:
 
 
 def run_history(calls: list) -> list:
+    """results of the calls, each with the audit of the frame conditions (Hist/Frame.v) after it"""
+    import audit
+    audit.import_all()
+    memo = audit.install_memo()
+    base = audit.snapshot()
     state: dict = {}
-    return [one_call(c, state) for c in calls]
+    out = []
+    for c in calls:
+        memo.generation += 1
+        memo.foreign_reads.clear()
+        o = one_call(c, state)
+        # (the compiler object the history itself keeps for reuse is not process state)
+        o["_residue"] = audit.residue(base)
+        o["_foreign_memo_reads"] = list(memo.foreign_reads[:3])
+        out.append(o)
+    return out
 
 
 def decompile_keeps_input(ops: list, infos: list, coros: list) -> dict:
@@ -92,8 +106,10 @@ def hashseed_result(call: list, seed: int) -> dict:
 
 
 def main() -> None:
-    run = Run("C11", "exploration")
+    run = Run("C11", "proof")
     run.forbid()
+    run.require_vo(["Hist/Frame.v"])
+    run.props("Props/C11.v")
     q = run.tier == "quick"
     r = random.Random(f"C11-{run.seed}")
     texts = []
@@ -161,12 +177,19 @@ def main() -> None:
         hs = [copy.deepcopy(r.choice(hostile)) for _ in range(r.randint(1, 3))] if hostile else []
         histories.append(hs + [copy.deepcopy(r.choice(webs)) for _ in range(r.randint(3, 10))])
     outs = run_impl([("checks.c11:run_history", h) for h in histories], chunksize=1)
+    frame_broken = None
     for h, out in zip(histories, outs):
         run.case(h, nontrivial=len(h) >= 3)
         if isinstance(out, dict):
             run.fail("history-crash", f"history run failed: {out}", {"history": h})
             continue
         for pos, (c, o) in enumerate(zip(h, out)):
+            res, foreign = o.pop("_residue", []), o.pop("_foreign_memo_reads", [])
+            run.count("frame-conditions:" + ("ok" if not res and not foreign else "BROKEN"))
+            if res and frame_broken is None:
+                frame_broken = ("restores_obs", f"after call {pos} ({c[0]}) these shared values differ from start-up: {res[:5]}", h[:pos + 1])
+            if foreign and frame_broken is None:
+                frame_broken = ("reads_only_obs", f"call {pos} ({c[0]}) reads memo entries written by an earlier call: {foreign[:2]}", h[:pos + 1])
             cc = copy.deepcopy(c)
             if cc[0] == "compile_reuse":
                 cc[0] = "compile"
@@ -204,6 +227,8 @@ def main() -> None:
             run.fail("decompile-alters-input:" + (diff[0]["code"] if diff else kind), f"convert() changed the routine set it was given: {diff}",
                      {"ops": c.ops, "after": k["after"]})
         run.count("keeps-input")
+    if frame_broken is not None:
+        run.correspondence_broken("frame condition " + frame_broken[0] + " of Hist/Frame.v", frame_broken[1], {"history": frame_broken[2]})
     run.sample({"history": [c[0] for c in histories[0]]})
     run.assume("igraph / antlr4 internal state is covered by this differential only (not modelled)")
     run.finish(rule="random call histories (compile, compile on a reused compiler object, decompile, SsbScript decompile; other inputs, "
